@@ -39,7 +39,7 @@ theorem stored_path_is_clean_arg (l : Lib) (env : Env) (arg : Path) (ops : BitVe
     (hnew : alLookup (clean arg) l.pathT = none) (hfresh : alLookup wd l.wdT = none) :
     alLookup wd (l.add env arg ops nf).1.wdT = some ⟨wd, inotifyRequest nf ops, clean arg, false⟩ ∧
     alLookup (clean arg) (l.add env arg ops nf).1.pathT = some wd := by
-  unfold Lib.add recursivePath Lib.register
+  unfold Lib.add recursivePath Lib.register Lib.applyAdd
   simp only [Bool.not_false, if_true, hnew, Option.getD_none, Option.bind_none, hk, hfresh]
   have hhas : alHas (clean arg) l.pathT = false := by simp [alHas, hnew]
   by_cases h0 : wd = 0
@@ -59,7 +59,7 @@ theorem first_alias_wins (l : Lib) (env : Env) (arg : Path) (ops : BitVec 32) (n
     (hlisted : alLookup wd l.wdT = some e) (hkey : e.wd = wd) (hne : wd ≠ 0)
     (hnew : alLookup (clean arg) l.pathT = none) :
     alLookup wd (l.add env arg ops nf).1.wdT = some e := by
-  unfold Lib.add recursivePath Lib.register
+  unfold Lib.add recursivePath Lib.register Lib.applyAdd
   simp only [Bool.not_false, if_true, hnew, Option.getD_none, Option.bind_none, hk, hlisted, hkey]
   have : (wd != 0) = true := by simpa using hne
   simp only [this, if_true]
